@@ -3,10 +3,12 @@ use std::{collections::{HashMap, HashSet}, io::{BufRead, Write}, path::{Path, Pa
 use watchexec::{sources::fs::{verif, Watcher as Kind}, Config, WatchedPath};
 
 #[derive(Default)]
-struct World { log: Vec<String>, fail_watch: HashSet<String>, fail_unwatch: HashSet<String>, shape: HashMap<String, String>, hooks: HashMap<String, (Vec<String>, String)>, cfg: Option<Arc<Config>>, live: Option<Vec<String>>, gen: u64 }
+struct World { log: Vec<String>, fail_watch: HashSet<String>, fail_unwatch: HashSet<String>, shape: HashMap<String, String>, hooks: HashMap<String, (Vec<String>, String)>, cfg: Option<Arc<Config>>, live: Option<Vec<String>>, live_kind: Option<&'static str>, gen: u64 }
 
-fn key(p: &Path, rec: bool) -> String { format!("{}{}", p.file_name().unwrap().to_string_lossy(), if rec { "+" } else { "-" }) }
-fn wp(k: &str) -> WatchedPath { let name = &k[..k.len() - 1]; let p = PathBuf::from(format!("/p/{name}")); if k.ends_with('+') { WatchedPath::recursive(p) } else { WatchedPath::non_recursive(p) } }
+/// a path is named by what follows `/p/`, with `.` for `/`: nested names (`a`, `a.x`, `a.x.y`) are different paths, one inside the other
+fn name_of(p: &Path) -> String { p.strip_prefix("/p").unwrap_or(p).to_string_lossy().replace('/', ".") }
+fn key(p: &Path, rec: bool) -> String { format!("{}{}", name_of(p), if rec { "+" } else { "-" }) }
+fn wp(k: &str) -> WatchedPath { let name = &k[..k.len() - 1]; let p = PathBuf::from(format!("/p/{}", name.replace('.', "/"))); if k.ends_with('+') { WatchedPath::recursive(p) } else { WatchedPath::non_recursive(p) } }
 fn kind(k: &str) -> Kind { if k == "P" { Kind::Poll(Duration::from_millis(50)) } else { Kind::Native } }
 
 fn apply(cfg: &Config, paths: &[String], k: &str) {
@@ -33,7 +35,9 @@ struct RecW { w: Arc<Mutex<World>>, registered: Vec<String>, gen: u64 }
 impl RecW {
     fn fire(&self, name: &str) {
         let hook = self.w.lock().unwrap().hooks.remove(name);
-        if let Some((paths, k)) = hook { let cfg = self.w.lock().unwrap().cfg.clone().unwrap(); apply(&cfg, &paths, &k); }
+        if let Some((paths, k)) = hook { let cfg = self.w.lock().unwrap().cfg.clone().unwrap();
+            // a kind-only hook calls Config::file_watcher alone
+            if paths == ["*keep*"] { cfg.file_watcher(kind(&k)); } else { apply(&cfg, &paths, &k); } }
     }
 }
 impl notify::Watcher for RecW {
@@ -48,7 +52,7 @@ impl notify::Watcher for RecW {
         Ok(())
     }
     fn unwatch(&mut self, path: &Path) -> notify::Result<()> {
-        let name = path.file_name().unwrap().to_string_lossy().to_string();
+        let name = name_of(path);
         self.w.lock().unwrap().log.push(format!("unwatch:{name}"));
         self.fire(&name);
         { let w = self.w.lock().unwrap(); if w.fail_unwatch.contains(&name) { return Err(injected(path, w.shape.get(&name))); } }
@@ -59,14 +63,14 @@ impl notify::Watcher for RecW {
     }
     fn kind() -> notify::WatcherKind { notify::WatcherKind::NullWatcher }
 }
-impl Drop for RecW { fn drop(&mut self) { let mut w = self.w.lock().unwrap(); w.log.push("dropwatcher".into()); if w.gen == self.gen { w.live = None; } } }
+impl Drop for RecW { fn drop(&mut self) { let mut w = self.w.lock().unwrap(); w.log.push("dropwatcher".into()); if w.gen == self.gen { w.live = None; w.live_kind = None; } } }
 
 async fn settle() { for _ in 0..60 { tokio::task::yield_now().await; } }
 
 async fn run_case(ops: Vec<String>) -> String {
     let world = Arc::new(Mutex::new(World::default()));
     *verif::FACTORY.lock().unwrap() = Some(Box::new({ let world = world.clone(); move |k, _h| {
-        let mut w = world.lock().unwrap(); w.log.push(format!("new:{}", if matches!(k, Kind::Native) { "N" } else { "P" })); w.live = Some(vec![]); w.gen += 1; let gen = w.gen;
+        let mut w = world.lock().unwrap(); w.log.push(format!("new:{}", if matches!(k, Kind::Native) { "N" } else { "P" })); w.live = Some(vec![]); w.live_kind = Some(if matches!(k, Kind::Native) { "N" } else { "P" }); w.gen += 1; let gen = w.gen;
         Ok(Box::new(RecW { w: world.clone(), registered: vec![], gen }) as Box<dyn notify::Watcher + Send>) } }));
     let cfg = Arc::new(Config::default());
     world.lock().unwrap().cfg = Some(cfg.clone());
@@ -82,6 +86,8 @@ async fn run_case(ops: Vec<String>) -> String {
             "set" => { apply(&cfg, &paths(f[1]), f[2]); settle().await; }
             "poke" => { cfg.signal_change(); settle().await; }
             "hook" => { world.lock().unwrap().hooks.clear(); world.lock().unwrap().hooks.insert(f[1].to_string(), (paths(f[2]), f[3].to_string())); continue; }
+            "hookk" => { world.lock().unwrap().hooks.clear(); world.lock().unwrap().hooks.insert(f[1].to_string(), (vec!["*keep*".to_string()], f[2].to_string())); continue; }
+            "kind" => { cfg.file_watcher(kind(f[1])); settle().await; }
             "failw" => { let mut w = world.lock().unwrap(); w.fail_watch.insert(f[1].to_string()); w.shape.remove(f[1]); if f.len() > 2 { w.shape.insert(f[1].to_string(), f[2].to_string()); } continue; }
             "okw" => { world.lock().unwrap().fail_watch.remove(f[1]); continue; }
             "failu" => { let mut w = world.lock().unwrap(); w.fail_unwatch.insert(f[1].to_string()); if f.len() > 2 { w.shape.insert(f[1].to_string(), f[2].to_string()); } continue; }
@@ -94,11 +100,13 @@ async fn run_case(ops: Vec<String>) -> String {
         if live.is_empty() { live = "empty".into(); }
         out.push(format!("{}/e{}/{}", calls.join(","), errs, live));
     }
+    let live_kind = world.lock().unwrap().live_kind.unwrap_or("none");
     task.abort();
     *verif::FACTORY.lock().unwrap() = None;
     // what is configured at the end (after in-call changes too): the oracle compares it with what is registered
     let mut conf: Vec<String> = cfg.pathset.get().iter().map(|p| { let p: &WatchedPath = p; key(p.as_ref(), format!("{p:?}").contains("recursive: true")) }).collect(); conf.sort();
-    format!("{}\tCFG={}|{}", out.join(";"), conf.join(","), if matches!(cfg.file_watcher.get(), Kind::Native) { "N" } else { "P" })
+    // … and the kind of the watcher that is active at the end (the one created last and not yet dropped)
+    format!("{}\tCFG={}|{}|{}", out.join(";"), conf.join(","), if matches!(cfg.file_watcher.get(), Kind::Native) { "N" } else { "P" }, live_kind)
 }
 
 fn main() {
